@@ -372,7 +372,7 @@ class Runner:
                     result.evaluations += 1
                     result.transitions += 1
                     back = self.from_jsonable(entry)(document)
-                    if type(back).__name__ != instance["__class__"]:
+                    if sdk.PythonSdk.spec_name(spec, back) != instance["__class__"]:
                         result.add_violation(
                             f"{leg}-roundtrip:{label}:wrong-class",
                             f"{entry}_from_jsonable gave a {type(back).__name__} for a {instance['__class__']}",
@@ -406,7 +406,7 @@ class Runner:
                     result.evaluations += 1
                     result.transitions += 1
                     back = self.from_str(entry)(xml_text)
-                    if type(back).__name__ != instance["__class__"]:
+                    if sdk.PythonSdk.spec_name(spec, back) != instance["__class__"]:
                         result.add_violation(
                             f"xml-roundtrip:{label}:wrong-class",
                             f"{entry}_from_str gave a {type(back).__name__} for a {instance['__class__']}",
